@@ -239,14 +239,24 @@ pub fn universe(seed: u64, thorough: bool) -> (Vec<UTy>, Vec<String>, usize) {
     let small: Vec<UTy> = vec![base[0].clone(), base[4].clone()];
     let mut s1 = small.clone();
     s1.extend(level(&small, true));
-    let l2 = level(&s1, false);
+    let mut l2 = level(&s1, false);
+    // ternary tuples / binary function types whose components are atoms or pairs: with the binary ones above these
+    // are all groupings of up to six leaves two levels deep (`((a,b),c,d)` next to `((a,b,c),d)`)
+    let pairs_and_atoms: Vec<UTy> = s1.iter().filter(|t| t.shape != "tuple" || t.src.matches(',').count() == 1).filter(|t| matches!(t.shape, "tuple" | "prim" | "struct")).cloned().collect();
+    for x in &pairs_and_atoms {
+        for y in &pairs_and_atoms {
+            for z in &pairs_and_atoms {
+                l2.push(tuple(&[x, y, z]));
+            }
+        }
+    }
     let n_l2 = l2.len();
     let mut rng = Rng::new(seed ^ 0xC19E);
     if thorough {
         all.extend(l2);
     } else {
         // quick tier: tuples of tuples exhaustively (regrouping), the rest sampled by the seed
-        let (keep, rest): (Vec<UTy>, Vec<UTy>) = l2.into_iter().partition(|t| t.shape == "tuple" && t.src.len() <= 34);
+        let (keep, rest): (Vec<UTy>, Vec<UTy>) = l2.into_iter().partition(|t| t.shape == "tuple" && t.src.len() <= 36);
         all.extend(keep);
         let want = 260.min(rest.len());
         let mut idx: Vec<usize> = (0..rest.len()).collect();
